@@ -151,7 +151,10 @@ def generic_checks(rep: OpReport, rec: PathRec, cls: str) -> None:  # noqa: PLR0
         ob("RESULT", "result is not a definite bool on some path" if rec.result is None else "result is a bool", rec.result is not None)
     for rule, msg in rec.notes:
         if rule in ("R1", "R2", "R5", "POS", "FAILLABEL", "FAILPOS", "RAWSNAP", "STATEWRITE", "STACK"):
-            ob(rule if rule not in ("RAWSNAP", "STATEWRITE", "STACK") else "R2", _norm_note(msg), False)
+            # ok()/restore() with nothing open pops an empty list: IndexError escapes parse() (C07; the E3 triage
+            # entry for that pop is SAFE *because of* this rule)
+            extra = {"C07"} if rule == "R1" and "without an open checkpoint" in msg else None
+            ob(rule if rule not in ("RAWSNAP", "STATEWRITE", "STACK") else "R2", _norm_note(msg), False, extra)
     if not any(r == "R2" for r, _ in rec.notes):
         ob("R2", "no attempt starts from a dirty state", True)
     if any(e[0] in ("ADV", "SETPOS", "MATCH") for e in rec.events) and not any(r == "POS" for r, _ in rec.notes):
@@ -799,6 +802,18 @@ def diff_checks(repo: Repo, rep: OpReport, masks: dict, tier: str) -> None:
         rep.oblige({"C01"}, "DIFF", con, f"parse() and the emitted code agree on {n} scripted child/trivia outcomes ({label.split('::')[-1]})", True)
         for cat, detail in bad:
             rep.oblige({"C01"}, "DIFF", con, cat, False, Finding("DIFF", con, cat, f"{short(con)}: {cat}; e.g. {detail}", {"variant": label}))
+    # ---- the character terminals: same result on the model inputs of sa/termsem.py
+    from . import termsem  # noqa: PLC0415
+
+    n_t, bad_t = termsem.check_terminals(repo, "C01 TERM-DIFF", tier == "thorough")
+    rep.count("terminal_model_points", n_t)
+    tcon = "src/pest/grammar/expressions/terminals.py"
+    rep.oblige({"C01"}, "TERM-DIFF", tcon, f"String, CIString and Range: parse() and the emitted code give the same result on {n_t} model inputs", True)
+    seen_t: set = set()
+    for con_t, cat, detail in bad_t:
+        if cat.startswith("the siblings disagree") and con_t not in seen_t:
+            seen_t.add(con_t)
+            rep.oblige({"C01"}, "TERM-DIFF", con_t, cat, False, Finding("TERM-DIFF", con_t, cat, f"{short(con_t)}: {cat}: e.g. {detail}", {"witness": detail}))
     # ---- Rule.parse against the code generate_rule() emits, on model rule tables (E8)
     n, bad = gensem.check_gen(repo, "C01 GEN-DIFF", masks, tier == "thorough")
     rep.count("gen_diff_scenarios", n)
